@@ -668,6 +668,32 @@ def witness_default(ctx):
                         'Transaction.raw serialises the witness stack only for non-legacy inputs: the witness data handed to add_input is dropped from the transaction' if wit else
                         'an input without witness data is serialised in the segwit format')
     ctx.floor(n, 18, 'script type x witness combinations')
+    # an input described by the scriptPubKey it spends (locking_script): a witness program (0014.. / 0020..) makes it a segwit input whether or
+    # not the caller also names the script type - the BIP143 digest and the witness serialisation depend on it
+    LS = ('var', 'ls')
+    for prog, stype in (('p2wpkh', None), ('p2wpkh', 'sig_pubkey'), ('p2wsh', None), ('p2wsh', 'p2sh_multisig')):
+        hooks = dict(LAYOUT_HOOKS)
+        hooks['Script.parse_bytes'] = lambda interp, args, kwargs, st_, node: S(LS)
+        it = Interp(ctx.repo, 'transactions', hooks=hooks, self_cls='transactions:Input')
+        st = State(env={'self': S(I), 'witness_type': None, 'witnesses': None, 'encoding': None, 'script_type': stype, 'signatures': None, 'keys': None, 'strict': True,
+                        'sigs_required': None, 'address': ''})
+        for k, v in (('script_type', stype), ('unlocking_script', b''), ('locking_script', b'\x00\x20' + b'\x11' * 32 if prog == 'p2wsh' else b'\x00\x14' + b'\x11' * 20),
+                     ('signatures', []), ('keys', []), ('address_obj', None), ('public_hash', b'')):
+            st.heap[('attr', I, k)] = v
+        st.heap[('attr', LS, 'script_types')] = [prog]
+        st.heap[('attr', LS, 'public_hash')] = b'\x11' * (32 if prog == 'p2wsh' else 20)
+        it.frames.append([])
+        try:
+            for x in stmts:
+                st = it.exec_stmt(x, st)
+                if st is None:
+                    break
+        except AnalysisError as e:
+            ctx.undecided('Input.__init__(locking_script=%s program, script_type=%r): witness-type statements not evaluable: %s' % (prog, stype, str(e)[:100]))
+        got = term(st.heap.get(('attr', I, 'witness_type'))) if st is not None else None
+        ctx.saw('locking_script %s, script_type=%s -> witness_type %s' % (prog, stype, show(got)[:40]))
+        ctx.require(got == 'segwit', q, 'an input that spends a %s scriptPubKey (given as locking_script) with script_type=%r ends with witness_type %s, expected segwit' % (prog, stype, show(got)[:60]), fn,
+                    'the input is signed and checked with the legacy preimage instead of BIP143 and serialised with a scriptSig: verify() is True, the signatures are invalid on the network')
     # the same statements on a witness stack handed over as one serialised byte string (the form the wallet database and the service
     # cache store): every item is decoded from its own length and bytes; an empty item is the library's placeholder 00, whatever precedes it
     def ser(items):
